@@ -226,8 +226,25 @@ def check(ctx) -> Result:
         arg = c.args[1] if len(c.args) > 1 else None
         verdict = None
         why = "phase argument not traced"
+        cont = None
         if isinstance(arg, ast.Subscript) and isinstance(arg.value, ast.Name):
             cont = arg.value.id
+        elif isinstance(arg, ast.Name):
+            # a loop variable ranging over a container of phases (possibly zipped with the modes)
+            for lp_ in walk_no_nested(mp.node):
+                if isinstance(lp_, ast.For) and c in list(ast.walk(lp_)):
+                    tgts = lp_.target.elts if isinstance(lp_.target, ast.Tuple) else [lp_.target]
+                    its = lp_.iter.args if isinstance(lp_.iter, ast.Call) and src(lp_.iter.func) == "zip" else [lp_.iter]
+                    for t_, it_ in zip(tgts, its):
+                        if isinstance(t_, ast.Name) and t_.id == arg.id:
+                            base_ = it_
+                            while isinstance(base_, ast.Call) and src(base_.func) in ("reversed", "list", "tuple", "enumerate") and base_.args:
+                                base_ = base_.args[0]
+                            if isinstance(base_, ast.Call) and isinstance(base_.func, ast.Attribute) and base_.func.attr in ("values",):
+                                base_ = base_.func.value
+                            if isinstance(base_, ast.Name):
+                                cont = base_.id
+        if cont is not None:
             defs = [a for a in walk_no_nested(mp.node) if isinstance(a, ast.Assign) and src(a.targets[0]) == cont and isinstance(a.value, (ast.DictComp, ast.ListComp))]
             if defs:
                 d = defs[-1].value
@@ -244,18 +261,66 @@ def check(ctx) -> Result:
     kw = [{k.arg: src(k.value) for k in c.keywords} for c in bsc]
     res.add(all(k.get("reflectivity") == "self.error_model.get_bs_reflectivity()" for k in kw) and all(v.startswith("self.error_model.get_") for k in kw for v in k.values()), "A-noise-only-from-error-model", "Reck.map", mp.site(), mp.qualname, "reflectivity and loss come from the error model only", "component values do not come from the error model", construct=str(kw))
     # heralds copied pairwise
-    hl = [l for l in walk_no_nested(mp.node) if isinstance(l, ast.For) and "heralds" in src(l.iter) and src(l.iter).startswith("zip(")]
-    okh = False
+    hl = [l for l in walk_no_nested(mp.node) if isinstance(l, ast.For) and "herald" in src(l.iter) and isinstance(l.iter, ast.Call) and src(l.iter.func) == "zip"]
+    verdict_h, why_h = None, "herald copy loop not recognised"
     if hl:
         l = hl[0]
-        m1, m2 = (x.id for x in l.target.elts)
-        guard = any(isinstance(n, ast.If) and any(isinstance(b, ast.Raise) for b in n.body) and src(n.test).replace("'", '"') == f'heralds["input"][{m1}] != heralds["output"][{m2}]' for n in l.body)
-        call = [c for c in ast.walk(l) if isinstance(c, ast.Call) and src(c.func) == f"{mc}.herald"]
-        okh = guard and len(call) == 1 and [src(a).replace("'", '"') for a in call[0].args] == [f'heralds["input"][{m1}]', m1, m2] and 'heralds["input"], heralds["output"]' in src(l.iter).replace("'", '"')
-        hd = [a for a in walk_no_nested(mp.node) if isinstance(a, ast.Assign) and src(a.targets[0]) == "heralds"]
-        okh = okh and bool(hd) and src(hd[0].value) == "circuit.heralds"
-    res.add(okh, "P-heralds-copied-pairwise", "Reck.map", mp.site(), mp.qualname, "each (input mode, output mode, photons) herald of the original is re-declared on the mapped circuit; unequal photon numbers are refused",
-            "heralds of the original are not copied pairwise onto the mapped circuit", construct=src(hl[0])[:200] if hl else "")
+        tg = l.target.elts if isinstance(l.target, ast.Tuple) else []
+        roles = {}  # name -> (side, 'mode' | 'photons')
+        table = {}  # side -> text of the table expression
+        for t_, it_ in zip(tg, l.iter.args):
+            txt = src(it_).replace("'", '"')
+            side = "input" if '"input"' in txt else ("output" if '"output"' in txt else None)
+            if side is None:
+                continue
+            if isinstance(it_, ast.Call) and isinstance(it_.func, ast.Attribute) and it_.func.attr == "items" and isinstance(t_, ast.Tuple) and len(t_.elts) == 2 and all(isinstance(x, ast.Name) for x in t_.elts):
+                roles[t_.elts[0].id] = (side, "mode")
+                roles[t_.elts[1].id] = (side, "photons")
+                table[side] = src(it_.func.value).replace("'", '"')
+            elif isinstance(t_, ast.Name):
+                roles[t_.id] = (side, "mode")
+                base_ = it_.func.value if isinstance(it_, ast.Call) and isinstance(it_.func, ast.Attribute) and it_.func.attr == "keys" else it_
+                table[side] = src(base_).replace("'", '"')
+
+        def role(e):
+            if isinstance(e, ast.Name):
+                return roles.get(e.id)
+            if isinstance(e, ast.Subscript) and isinstance(e.slice, ast.Name):
+                r_ = roles.get(e.slice.id)
+                t_ = src(e.value).replace("'", '"')
+                if r_ and r_[1] == "mode" and table.get(r_[0]) == t_:
+                    return (r_[0], "photons")
+            return None
+
+        calls = [c for c in ast.walk(l) if isinstance(c, ast.Call) and src(c.func) == f"{mc}.herald"]
+        guards = [n for n in ast.walk(l) if isinstance(n, ast.If) and any(isinstance(b_, ast.Raise) for b_ in n.body) and isinstance(n.test, ast.Compare) and isinstance(n.test.ops[0], ast.NotEq)]
+        if len(calls) == 1 and set(roles.values()) >= {("input", "mode"), ("output", "mode")}:
+            ar = [role(a_) for a_ in calls[0].args[:3]]
+            kwr = {k.arg: role(k.value) for k in calls[0].keywords}
+            n_r = ar[0] if len(ar) > 0 else kwr.get("n_photons")
+            i_r = ar[1] if len(ar) > 1 else kwr.get("input_mode")
+            o_r = ar[2] if len(ar) > 2 else kwr.get("output_mode")
+            g_ok = any({role(g.test.left), role(g.test.comparators[0])} == {("input", "photons"), ("output", "photons")} for g in guards)
+            if None in (n_r, i_r, o_r):
+                verdict_h, why_h = None, "arguments of the herald call not traced to the herald tables"
+            elif (i_r, o_r) == (("input", "mode"), ("output", "mode")) and n_r[1] == "photons" and g_ok:
+                verdict_h = True
+            else:
+                verdict_h = False
+                why_h = f"herald is re-declared with (photons from {n_r}, input mode from {i_r}, output mode from {o_r})" + ("" if g_ok else "; unequal input/output photon numbers are not refused")
+        hd = [a for a in walk_no_nested(mp.node) if isinstance(a, ast.Assign) and src(a.targets[0]) in {t_.split("[")[0] for t_ in table.values()}]
+        srcs_ = [src(a.value) for a in hd] + [t_.split("[")[0] for t_ in table.values() if "." in t_.split("[")[0]]
+        if verdict_h and not any(x_ == "circuit.heralds" for x_ in srcs_):
+            other = [x_ for x_ in srcs_ if x_.startswith("circuit.") and x_ != "circuit.heralds"]
+            if other:
+                verdict_h, why_h = False, f"the herald tables are read from `{other[0]}`, not from `circuit.heralds`: heralds the original circuit carries inside grouped sub-circuits (every heralded gate) are not re-declared on the mapped circuit"
+            else:
+                verdict_h, why_h = None, "herald tables are not read from the circuit being mapped"
+    if verdict_h is None:
+        res.frozen(False, "P-heralds-copied-pairwise", "Reck.map", mp.site(hl[0]) if hl else mp.site(), mp.qualname, "", why_h, construct=src(hl[0])[:200] if hl else "")
+    else:
+        res.add(verdict_h, "P-heralds-copied-pairwise", "Reck.map", mp.site(hl[0]), mp.qualname, "each (input mode, output mode, photons) herald of the original is re-declared on the mapped circuit; unequal photon numbers are refused",
+                "heralds of the original are not copied pairwise onto the mapped circuit: " + why_h, construct=src(hl[0])[:200])
     # unitary taken from the circuit and flipped consistently with the mode flip of the layout
     fl = [a for a in walk_no_nested(mp.node) if isinstance(a, ast.Assign) and "np.flip(circuit.U" in src(a.value)]
     res.frozen(bool(fl) and "axis=(0, 1)" in src(fl[0].value), "A-mode-flip-consistent", "Reck.map", mp.site(), mp.qualname, "unitary flipped on both axes before decomposition", "the unitary is no longer flipped on both axes (layout uses reversed mode numbering)", construct=src(fl[0]) if fl else "")
